@@ -1,14 +1,18 @@
 (* C03 — Parsing is total; errors carry a position inside the source.
    This file contains only statements closed by [exact] of a lemma proved in Proofs/,
-   non-vacuity examples, refutation witnesses, and Print Assumptions.
+   examples, and Print Assumptions.
 
    Vocabulary (Model/Lexer.v): [scan_all src ds] runs the model of lexer.NewLexer / Scan /
    ScanRegex over the source [src] until EOF or ILLEGAL; [ds] are the client's decisions
    (after each DIV / DIV_ASSIGN token: call ScanRegex or not) and is universally quantified.
    [pos_of_offset src k] is the specification: line = 1 + number of LF before offset k,
    column = 1 + number of bytes other than CR between the last LF before k and k.
-   Ghost fields of a reported token: [tstart] the offset at which its position was captured,
-   [tbad] an earlier un-read crossed a CR/LF, [tover] next() ran again after the end. *)
+   Ghost field of a reported token: [tstart], the offset at which its position was captured.
+
+   History: on the tree before the fix commits "lexer unread restores nextPos from pos" and
+   "lexer position stays at end of input" the statement C03_lexer_positions was false
+   (findings F-C03-1, F-C03-3, F-C03-4; the former refutation witnesses are the Examples at the
+   end of this file, now with their true positions). *)
 From Verif Require Import Lib.Base Lib.Utf8 Model.Lexer
   Proofs.LexerPos Proofs.LexerScan Proofs.LexerTokens Proofs.LexerShow Proofs.LexerMain Proofs.LexerParsePos
   Gen.ParsePos.
@@ -22,76 +26,15 @@ Theorem C03_lexer_total : forall (src : bytes) (ds : list bool),
 Proof. exact lexer_total. Qed.
 Print Assumptions C03_lexer_total.
 
-(* The full statement about token positions.  It is FALSE on the pinned tree. *)
+(* The full statement about token positions: every token other than ILLEGAL is reported at the
+   true line and column of its first byte; every ILLEGAL token at the line and column of an
+   offset 0..len of the source.  All sources, all clients, no guard. *)
 Definition C03_lexer_positions_statement : Prop :=
   forall src ds os, scan_all src ds = LOk os -> forall o, In o os -> token_claim src (otok o).
 
-Theorem C03_lexer_positions_refuted : ~ C03_lexer_positions_statement.
-Proof. exact lexer_positions_refuted. Qed.
-Print Assumptions C03_lexer_positions_refuted.
-
-(* Second, independent way in which it is false: the source of two bytes, a double quote and a backslash
-   (an unterminated string ending in a backslash), gets its ILLEGAL token at 1:4; offsets 0..2 are 1:1..1:3. *)
-Theorem C03_illegal_position_refuted :
-  exists src os o, scan_all src [] = LOk os /\ In o os /\ tbad (otok o) = false /\
-    tkind (otok o) = T_ILLEGAL /\
-    ~ (exists k, 0 <= k <= zlen src /\ tpos (otok o) = pos_of_offset src k).
-Proof. exact illegal_position_refuted. Qed.
-Print Assumptions C03_illegal_position_refuted.
-
-(* The guarded statement: every token reported while no earlier NUMBER's dangling exponent was
-   un-read across a line end (tbad = false) has the true position of its first byte; an ILLEGAL
-   token additionally needs that next() did not overrun the end (tover = false) and then
-   designates an existing offset 0..len.  All sources, all clients. *)
-Theorem C03_lexer_positions_partial : forall (src : bytes) (ds : list bool) os,
-  scan_all src ds = LOk os ->
-  forall o, In o os -> token_guard (otok o) -> token_claim src (otok o).
-Proof. exact lexer_positions_guarded. Qed.
-Print Assumptions C03_lexer_positions_partial.
-
-(* What the flag means in the source text: a token is flagged only if an EARLIER token of the
-   stream is a NUMBER whose text is directly followed by e/E, an optional + or -, and CR or LF
-   (a dangling exponent at a line end) -- the input class of findings F-C03-1 and F-C03-3. *)
-Theorem C03_bad_has_cause : forall src ds os pre o post,
-  scan_all src ds = LOk os -> os = pre ++ o :: post -> tbad (otok o) = true ->
-  exists n, In n pre /\ tkind (otok n) = T_NUMBER /\
-            dangling_eol src (tstart (otok n) + zlen (tval (otok n))).
-Proof. exact bad_has_cause. Qed.
-Print Assumptions C03_bad_has_cause.
-
-(* The same theorem with a purely textual guard: if nowhere in the source an e/E is followed,
-   directly or after one sign, by CR or LF, every token other than ILLEGAL is reported at the
-   true line and column of its first byte. *)
-Theorem C03_lexer_positions_textual_guard : forall src ds os,
-  no_dangling_eol src -> scan_all src ds = LOk os ->
-  forall o, In o os -> tkind (otok o) <> T_ILLEGAL ->
-  tpos (otok o) = pos_of_offset src (tstart (otok o)) /\ 0 <= tstart (otok o) <= zlen src.
-Proof. exact lexer_positions_textual_guard. Qed.
-Print Assumptions C03_lexer_positions_textual_guard.
-
-(* What the second flag means in the source text: tover is raised only if the last byte of the
-   source is a backslash -- the input class of finding F-C03-4. *)
-Theorem C03_over_has_cause : forall src ds os,
-  scan_all src ds = LOk os -> forall o, In o os -> tover (otok o) = true ->
-  getch src (zlen src - 1) = 92.
-Proof. exact over_has_cause. Qed.
-Print Assumptions C03_over_has_cause.
-
-(* Both guards textual: a source without a dangling exponent at a line end and not ending in a
-   backslash -- in particular every source the command line tool builds from files whose numbers
-   are well formed, since it appends a newline -- has every token, ILLEGAL included, reported at a
-   position that exists, and every other token at the true position of its first byte. *)
-Theorem C03_lexer_positions_textual : forall src ds os,
-  no_dangling_eol src -> getch src (zlen src - 1) <> 92 -> scan_all src ds = LOk os ->
-  forall o, In o os -> token_claim src (otok o).
-Proof. exact lexer_positions_textual. Qed.
-Print Assumptions C03_lexer_positions_textual.
-
-(* the guard can only fail after the first token *)
-Theorem C03_first_token_unaffected : forall src ds os,
-  scan_all src ds = LOk os -> exists o rest, os = o :: rest /\ tbad (otok o) = false.
-Proof. exact first_token_unaffected. Qed.
-Print Assumptions C03_first_token_unaffected.
+Theorem C03_lexer_positions : C03_lexer_positions_statement.
+Proof. exact lexer_positions. Qed.
+Print Assumptions C03_lexer_positions.
 
 (* The specification advances like the lexer should: one byte at a time. *)
 Theorem C03_pos_of_offset_step : forall src k c,
@@ -109,20 +52,14 @@ Theorem C03_positions_exist : forall src k, 0 <= k <= zlen src ->
 Proof. exact show_source_line_ok. Qed.
 Print Assumptions C03_positions_exist.
 
-(* hence every guarded token position can be shown *)
-Theorem C03_guarded_positions_showable : forall src ds os,
+(* hence every position the lexer reports can be shown: showSourceLine cannot be driven out of
+   range by any lexer position *)
+Theorem C03_reported_positions_showable : forall src ds os,
   scan_all src ds = LOk os ->
-  forall o, In o os -> token_guard (otok o) ->
+  forall o, In o os ->
   valid_pos src (tpos (otok o)) /\ exists r, show_source_line src (tpos (otok o)) = Ok r.
-Proof. exact guarded_positions_showable. Qed.
-Print Assumptions C03_guarded_positions_showable.
-
-(* ... and an unguarded one cannot: source 1e+LF, the NEWLINE token at 2:0 makes
-   showSourceLine slice [:-1] (the CLI panic, finding F-C03-2) *)
-Theorem C03_show_source_line_refuted :
-  exists src os o, scan_all src [] = LOk os /\ In o os /\ show_source_line src (tpos (otok o)) = Panic.
-Proof. exact show_source_line_refuted. Qed.
-Print Assumptions C03_show_source_line_refuted.
+Proof. exact reported_positions_showable. Qed.
+Print Assumptions C03_reported_positions_showable.
 
 (* Table theorem (tables regenerated from parser/parser.go, internal/resolver/*.go on every
    check): every position given to ast.PosErrorf is p.pos, a saved copy of it, a ...Pos field
@@ -149,42 +86,38 @@ Theorem C03_keywords_agree :
 Proof. exact keywords_agree. Qed.
 Print Assumptions C03_keywords_agree.
 
-(* ---- non-vacuity: the hypotheses are met by concrete sources ------------------------------ *)
-(* BEGIN{x=1e5 LF y=/a+/}  with the client asking for the regex: every token is guarded *)
-Example C03_ex_all_guarded :
+(* ---- examples: the inputs on which the tree was wrong before the repair ------------------- *)
+Definition summary (r : lres (list obs)) : list (position * Z * Z) :=
+  match r with LOk os => map (fun o => (tpos (otok o), tkind (otok o), tstart (otok o))) os | _ => [] end.
+
+(* 1e LF (F-C03-1): NEWLINE was reported at 2:0, EOF at 3:1 *)
+Example C03_ex_dangling_lf :
+  summary (scan_all [49; 101; 10] [])
+  = [((1, 1), T_NUMBER, 0); ((1, 2), T_NAME, 1); ((1, 3), T_NEWLINE, 2); ((2, 1), T_EOF, 3)].
+Proof. vm_compute. reflexivity. Qed.
+
+(* 1e+ LF 1 (F-C03-1, F-C03-2): "+" was reported at 2:-1, NEWLINE at 2:0 *)
+Example C03_ex_dangling_sign_lf :
+  summary (scan_all [49; 101; 43; 10; 49] [])
+  = [((1, 1), T_NUMBER, 0); ((1, 2), T_NAME, 1); ((1, 3), T_ADD, 2); ((1, 4), T_NEWLINE, 3);
+     ((2, 1), T_NUMBER, 4); ((2, 2), T_EOF, 5)].
+Proof. vm_compute. reflexivity. Qed.
+
+(* 1e CR LF 2 (F-C03-3): NEWLINE was reported at 1:2 *)
+Example C03_ex_dangling_cr :
+  summary (scan_all [49; 101; 13; 10; 50] [])
+  = [((1, 1), T_NUMBER, 0); ((1, 2), T_NAME, 1); ((1, 3), T_NEWLINE, 3); ((2, 1), T_NUMBER, 4); ((2, 2), T_EOF, 5)].
+Proof. vm_compute. reflexivity. Qed.
+
+(* a double quote and a backslash (F-C03-4): ILLEGAL was reported at 1:4; 1:3 is the end of input *)
+Example C03_ex_backslash_at_end :
+  summary (scan_all [34; 92] []) = [((1, 3), T_ILLEGAL, 2)].
+Proof. vm_compute. reflexivity. Qed.
+
+(* BEGIN{x=1e5 LF y=/a+/}  with the client asking for the regex *)
+Example C03_ex_regex :
   match scan_all [66;69;71;73;78;123;120;61;49;101;53;10;121;61;47;97;43;47;125] [true] with
-  | LOk os => forallb (fun o => negb (tbad (otok o)) && negb (tover (otok o))) os = true /\ length os = 12%nat
-  | _ => False
-  end.
-Proof. vm_compute. split; reflexivity. Qed.
-
-(* the witness of the refutation, spelled out: 1e LF gives NUMBER 1:1, NAME 1:2, NEWLINE 2:0, EOF 3:1;
-   the guard is conservative: the NAME token is already flagged although its own position is still true *)
-Example C03_ex_witness :
-  match scan_all [49; 101; 10] [] with
-  | LOk os => map (fun o => (tpos (otok o), tkind (otok o), tbad (otok o))) os
-              = [((1, 1), T_NUMBER, false); ((1, 2), T_NAME, true); ((2, 0), T_NEWLINE, true); ((3, 1), T_EOF, true)]
+  | LOk os => length os = 12%nat
   | _ => False
   end.
 Proof. vm_compute. reflexivity. Qed.
-
-(* the same source with a space before the line end is lexed with true positions *)
-Example C03_ex_repaired_by_space :
-  match scan_all [49; 101; 32; 10] [] with
-  | LOk os => map (fun o => (tpos (otok o), tkind (otok o), tbad (otok o))) os
-              = [((1, 1), T_NUMBER, false); ((1, 2), T_NAME, false); ((1, 4), T_NEWLINE, false); ((2, 1), T_EOF, false)]
-  | _ => False
-  end.
-Proof. vm_compute. reflexivity. Qed.
-
-(* the textual guard holds for a concrete source with an exponent: x=1e5 LF *)
-Example C03_ex_textual_guard : no_dangling_eol [120; 61; 49; 101; 53; 10].
-Proof.
-  intros j (He & Hr).
-  assert (Hj : 0 <= j < 6).
-  { destruct (Z_lt_dec j 0); [rewrite getch_out in He by (left; lia); lia|].
-    destruct (Z_lt_dec j 6); [lia|]. rewrite getch_out in He by (right; change (zlen [120; 61; 49; 101; 53; 10]) with 6; lia). lia. }
-  assert (Hc : j = 0 \/ j = 1 \/ j = 2 \/ j = 3 \/ j = 4 \/ j = 5) by lia.
-  unfold eol in Hr.
-  destruct Hc as [->|[->|[->|[->|[->| ->]]]]]; vm_compute in He, Hr; lia.
-Qed.
